@@ -253,6 +253,8 @@ def judge(ctx, case, stream, opts, scripting, label):
                 if got_attrs == w3 and used:
                     for u in sorted(set(used)):
                         known(u, where)
+                    if "equals-named-attribute-after-minimised-attribute" in used:
+                        return  # where the tag ends after that is lexically undecidable here
                 else:
                     ctx.violation("attributes-differ", case, "%s: %s" % (label, where) + " || output " + short(out, 400))
                     return
